@@ -47,6 +47,33 @@ class C10(PropertyCheck):
                     "all public views: every such mask with H*W <= 12; blurring masks: every mask with "
                     "H*W <= 12 x kernels {1,3,5}x{1,3,5}",
     }
+    modelled_functions = [
+        "autoarray/mask/mask_2d_util.py:blurring_mask_2d_from",
+        "autoarray/mask/mask_2d_util.py:check_if_edge_pixel",
+        "autoarray/mask/mask_2d_util.py:total_edge_pixels_from",
+        "autoarray/mask/mask_2d_util.py:edge_1d_indexes_from",
+        "autoarray/mask/mask_2d_util.py:check_if_border_pixel",
+        "autoarray/mask/mask_2d_util.py:total_border_pixels_from",
+        "autoarray/mask/mask_2d_util.py:border_slim_indexes_from",
+        "autoarray/mask/mask_2d_util.py:native_index_for_slim_index_2d_from",
+        "autoarray/mask/mask_2d_util.py:total_pixels_2d_from",
+        "autoarray/mask/derive/mask_2d.py:DeriveMask2D.blurring_from",
+        "autoarray/mask/derive/mask_2d.py:DeriveMask2D.edge",
+        "autoarray/mask/derive/mask_2d.py:DeriveMask2D.border",
+        "autoarray/mask/derive/indexes_2d.py:DeriveIndexes2D.edge_slim",
+        "autoarray/mask/derive/indexes_2d.py:DeriveIndexes2D.edge_native",
+        "autoarray/mask/derive/indexes_2d.py:DeriveIndexes2D.border_slim",
+        "autoarray/mask/derive/indexes_2d.py:DeriveIndexes2D.border_native",
+        "autoarray/mask/derive/indexes_2d.py:DeriveIndexes2D.native_for_slim",
+        "autoarray/mask/derive/grid_2d.py:DeriveGrid2D.unmasked",
+        "autoarray/mask/derive/grid_2d.py:DeriveGrid2D.edge",
+        "autoarray/mask/derive/grid_2d.py:DeriveGrid2D.border",
+        "autoarray/structures/grids/grid_2d_util.py:grid_2d_slim_via_mask_from",
+        "autoarray/geometry/geometry_util.py:central_pixel_coordinates_2d_from",
+        "autoarray/geometry/geometry_util.py:central_scaled_coordinate_2d_from",
+        "autoarray/structures/grids/uniform_2d.py:Grid2D.blurring_grid_from",
+        "autoarray/structures/grids/uniform_2d.py:Grid2D.from_mask",
+    ]
     trusted_extra = [
         "numpy fancy indexing `native_for_slim[edge_slim]`, `mask[rows, cols] = False` and the Mask2D / Grid2D "
         "constructors in the derive_* views are covered by correspondence only",
